@@ -50,7 +50,12 @@ func streamUserOp(o *Out, r *Rng, tier string) {
 		{"+", 4, false, func(a, b float64) float64 { return a + b }},
 		{"-", 4, false, func(a, b float64) float64 { return a - b }},
 		{"*", 5, false, func(a, b float64) float64 { return a * b }},
-		{"/", 5, false, func(a, b float64) float64 { return a / b }},
+		{"/", 5, false, func(a, b float64) float64 {
+			if b == 0 {
+				builtinDivByZero = true // the library's `/` reports "division by zero" instead of ±Inf / NaN
+			}
+			return a / b
+		}},
 		{"**", 6, true, math.Pow},
 	}
 	var users []userOp
@@ -166,9 +171,17 @@ func streamUserOp(o *Out, r *Rng, tier string) {
 			}
 			obs := obsRPN(text)
 			emit("rpnu\t"+hexOrDash([]byte(text)), obs, "u"+text+obs)
+			builtinDivByZero = false
 			want := climbValue(ops, operands)
 			o.Check("C09", "user-operators")
 			res, err := ajson.Eval(root, text)
+			if builtinDivByZero {
+				// under the declared grouping a built-in `/` meets a zero divisor: the library's answer is its division-by-zero error
+				if err == nil {
+					o.Fail("C09", "user-operators", "under the declared grouping a built-in division has a zero divisor, but Eval returned a value", registrations(users)+"\n"+text, "division by zero", fmt.Sprint(res))
+				}
+				continue
+			}
 			if err != nil {
 				o.Fail("C09", "user-operators", "Eval fails on a chain of registered operators", registrations(users)+"\n"+text, fmt.Sprint(want), err.Error())
 				continue
@@ -191,9 +204,13 @@ func reRegister(o *Out, r *Rng, users []userOp, builtins []userOp) []userOp {
 	eval := func(text string, ops []userOp, vals []float64, hist string) {
 		obs := obsRPN(text)
 		o.Emit("rpnu\t"+hexOrDash([]byte(text)), obs, "u"+text+obs)
+		builtinDivByZero = false
 		want := climbValue(ops, vals)
 		o.Check("C09", "user-operators")
 		res, err := ajson.Eval(root, text)
+		if builtinDivByZero {
+			return
+		}
 		if err != nil {
 			o.Fail("C09", "user-operators", "Eval fails on a chain of registered operators", hist+"\n"+text, fmt.Sprint(want), err.Error())
 			return
@@ -258,6 +275,9 @@ func registrations(users []userOp) string {
 	}
 	return strings.Join(parts, "; ")
 }
+
+// builtinDivByZero is set by the harness' model of the built-in `/` when its divisor is zero
+var builtinDivByZero bool
 
 // climbValue: the value of a op1 b op2 c … under the declared precedences and associativities (precedence climbing).
 func climbValue(ops []userOp, vals []float64) float64 {
